@@ -41,6 +41,11 @@ CLAIMED = {
   text="Extracts from the SSA of the current source the decision tables of carddav.Match (layered: query level over <=3 prop-filters, prop-filter level over presence, is-not-defined, inner test and <=3 text-matches, text-match level over match type, negate and predicate, with the operands of each predicate), of Filter (lists <=3, Limit -1..4, per-object match true/false/error) and of the projection, and compares every row with a reference evaluator written from the statement; purity (no write through query, objects or their card) is decided by the effects analysis. Exhaustive over the declared abstract domain; string predicates are independent atoms.",
   note="Trusted: go/ssa; models of vcard.Card.Get (presence atom + field). Domain constraints: filter names pairwise distinct, vCard non-empty. Bounded list lengths.",
   ref="DESIGN.md §3 C07"),
+ "C06": dict(
+  technique="static analysis: decision-table extraction by abstract interpretation of go/ssa over finite predicate domains (weak-order domain for instants, partition domain for names), compositional; write-effects analysis for purity",
+  text="Extracts from the SSA of the current source, layer by layer, the decision tables of the evaluator behind caldav.Match — time-range of a non-recurring VEVENT over every weak ordering of range start/end and DTSTART/DTEND (and the open-ended forms), property time-range, component filter at root and child level, property filter, parameter filter, text-match with negate-condition, each sub-result true/false/error — and of Filter, and compares every row with a reference evaluator written from RFC 4791 §9.7–9.9 as quoted in the statement. Exhaustive over the declared abstract domain (the RFC grammar's side constraints). Does not decide recurring events (rrule-go), text comparison on real strings, multi-valued properties.",
+  note="Trusted: go/ssa; models of go-ical accessors (presence atoms, instant symbols with failure atoms); my reading of RFC 4791 §9.9. Helpers are identified by their signatures; if the evaluator is restructured beyond that, the check reports 'undecided' (fails closed).",
+  ref="DESIGN.md §3 C06"),
 }
 
 def main():
